@@ -6,7 +6,7 @@ Databases are lists of applied segments as in SnapFSDrv.
   create <h> <name> <index> <term>        → ok
   wfull <h> <db> <wals|-> <ok|short|badcrc>  → ok | err <kind>
   winc <h> <wals>                         → ok | err <kind>
-  close <h> | closeold <h>                → ok | err <kind>     (close: with the full-needed re-check)
+  close <h> | close@0 <h> | close@1 <h>   → ok | err <kind>     (close: current source; @0/@1 older levels)
   closerf <h>                             → err <kind>   (Close whose final rename fails)
   cancel <h>                              → ok
   setfull                                 → ok
@@ -67,11 +67,15 @@ def step (d : DState) (line : String) : DState × String :=
     | _, _ => (d, "bad-op")
   | ["close", h] =>
     match h.toNat? with
-    | some h => let (s', o) := close true d.s h; ({ s := s' }, o)
+    | some h => let (s', o) := close 2 d.s h; ({ s := s' }, o)
     | none => (d, "bad-op")
-  | ["closeold", h] =>
+  | ["close@0", h] =>
     match h.toNat? with
-    | some h => let (s', o) := close false d.s h; ({ s := s' }, o)
+    | some h => let (s', o) := close 0 d.s h; ({ s := s' }, o)
+    | none => (d, "bad-op")
+  | ["close@1", h] =>
+    match h.toNat? with
+    | some h => let (s', o) := close 1 d.s h; ({ s := s' }, o)
     | none => (d, "bad-op")
   | ["closerf", h] =>
     match h.toNat? with
@@ -97,6 +101,7 @@ def step (d : DState) (line : String) : DState × String :=
         s!"{x.mt.id}:{x.mt.index}:{x.mt.term}:{if x.db.isSome then "F" else "I"}")))
     | .error e => (d, "err " ++ e)
   | ["due"] => (d, if fullDue d.s.fs then "full" else "incremental")
+  | ["flag"] => (d, if d.s.fs.fullNeeded then "set" else "clear")
   | ["ls"] => (d, lsStr d.s.fs)
   | ["open", n] =>
     match n.toNat? with
